@@ -95,6 +95,17 @@ def runLayout (c : Case) : Res :=
       (if base.yearly.map (·.1) != rel.yearly.map (·.1) then ["yearly costs: different years"] else
         (base.yearly.zip rel.yearly).filterMap (fun ((y, r1), (_, r2)) =>
           if r1 == r2 || ties.contains (y.drop 1).toString then none else some s!"yearly max cost row of {y.drop 1} differs"))
+    -- ---------------- ORACLE, second sentence of the property (implementation only): per security the
+    -- rows are processed in settlement-date order, ties broken by position in the concatenated input
+    let sortedBy := fun (which : String) (run : LRun) (rs : List (InRow Nat)) =>
+      if run.status != "ok" then [] else
+      let pos := fun (id : Nat) => (rs.findIdx? (fun r => r.val == id)).getD 0
+      let key := fun (id : Nat) => (((rs.find? (fun r => r.val == id)).map (·.settle)).getD 0, pos id)
+      run.orders.filterMap (fun (s, _, ids) =>
+        let ks := ids.map key
+        let ok := (ks.zip (ks.drop 1)).all (fun (a, b) => a.1 < b.1 || (a.1 == b.1 && a.2 < b.2))
+        if ok then none else some s!"{which}: rows of {(unstok? s).map String.ofList |>.getD s} not processed in (settlement date, input position) order: {ids}")
+    let oracle := oracle ++ sortedBy "base" base rows ++ sortedBy "relaid" rel rows'
     -- ---------------- correspondence: processing order
     let checkOrder := fun (which : String) (run : LRun) (rs : List (InRow Nat)) =>
       if run.status != "ok" then [] else
